@@ -6623,6 +6623,19 @@ impl RelationalEngine {
     fn apply_undo_entry(&self, entry: &UndoEntry) -> Vec<String> {
         let mut errors: Vec<String> = Vec::new();
 
+        // Undo entries name columns, not index kinds. Restoring an entry into an
+        // index kind the column does not have would create a ghost index that a later
+        // CREATE INDEX picks up, so only indexes that exist are touched.
+        let table_name = match entry {
+            UndoEntry::InsertedRow { table, .. }
+            | UndoEntry::UpdatedRow { table, .. }
+            | UndoEntry::DeletedRow { table, .. } => table.as_str(),
+        };
+        let hash_columns = self.get_table_indexes(table_name);
+        let btree_columns = self.get_table_btree_indexes(table_name);
+        let has_hash = |col: &String| hash_columns.contains(col);
+        let has_btree = |col: &String| btree_columns.contains(col);
+
         match entry {
             UndoEntry::InsertedRow {
                 table,
@@ -6675,7 +6688,9 @@ impl RelationalEngine {
                             change.column
                         ));
                     }
-                    if let Err(e) =
+                    if !has_hash(&change.column) {
+                        // no hash index on this column (any more): nothing to restore
+                    } else if let Err(e) =
                         self.index_add(table, &change.column, &change.old_value, *row_id)
                     {
                         errors.push(format!(
@@ -6691,7 +6706,9 @@ impl RelationalEngine {
                             change.column
                         ));
                     }
-                    if let Err(e) =
+                    if !has_btree(&change.column) {
+                        // no ordered index on this column (any more): nothing to restore
+                    } else if let Err(e) =
                         self.btree_index_add(table, &change.column, &change.old_value, *row_id)
                     {
                         errors.push(format!(
@@ -6720,10 +6737,14 @@ impl RelationalEngine {
 
                 // Restore index entries (continue even if some fail)
                 for (col, value) in index_entries {
-                    if let Err(e) = self.index_add(table, col, value, *row_id) {
+                    if !has_hash(col) {
+                        // no hash index on this column (any more): nothing to restore
+                    } else if let Err(e) = self.index_add(table, col, value, *row_id) {
                         errors.push(format!("Failed to add index entry for {table}.{col}: {e}"));
                     }
-                    if let Err(e) = self.btree_index_add(table, col, value, *row_id) {
+                    if !has_btree(col) {
+                        // no ordered index on this column (any more): nothing to restore
+                    } else if let Err(e) = self.btree_index_add(table, col, value, *row_id) {
                         errors.push(format!(
                             "Failed to add btree index entry for {table}.{col}: {e}"
                         ));
